@@ -566,9 +566,13 @@ def reentrant(acc):
     the call without the inner one."""
     import numdifftools.nd_scipy as nds
     x = np.array([0.7, -1.3])
-    for api in ('Jacobian', 'Gradient'):
-        for method in ('forward', 'central', 'complex'):
+    for api, method, inner in [(a, m, i) for a in ('Jacobian', 'Gradient') for m in ('forward', 'central', 'complex')
+                               for i in ('same-object', 'other-object')]:
+        if True:
             st = {'depth': 0, 'n': 0, 'bad': 0, 'nest': True}
+            # 'other-object': f uses ANOTHER wrapper object (other method, a step, no bounds) during its very first evaluation
+            nest_at = 2 if inner == 'same-object' else 1
+            other_method = {'forward': 'complex', 'central': 'forward', 'complex': 'central'}[method]
             base = _hist_f if api == 'Jacobian' else _hist_g
 
             def f(t, scale, shift=0.0, st=st, base=base):
@@ -577,20 +581,24 @@ def reentrant(acc):
                     st['n'] += 1
                 if (scale, shift) != want:
                     st['bad'] += 1
-                if st['nest'] and st['depth'] == 0 and st['n'] == 2:
+                if st['nest'] and st['depth'] == 0 and st['n'] == nest_at:
                     st['depth'] = 1
                     try:
-                        obj(x, 1.0, shift=0.0)
+                        (obj if inner == 'same-object' else other)(x, 1.0, shift=0.0)
                     finally:
                         st['depth'] = 0
                 return base(t, scale, shift)
             case = dict(kind='reentrant', api=api, method=method)
+            if inner != 'same-object':
+                case['inner'] = inner
+            box = (np.array([-5.0, -5.0]), np.array([0.7, 5.0]))      # x sits on the upper bound of its first coordinate
             try:
-                obj = getattr(nds, api)(f, method=method)
+                other = getattr(nds, api)(f, method=other_method, step=1e-2)
+                obj = getattr(nds, api)(f, method=method, bounds=box) if inner != 'same-object' else getattr(nds, api)(f, method=method)
                 nested = fw.obs(obj(x, 2.5, shift=-1.0))
                 bad, nev = st['bad'], st['n']
                 st.update(depth=0, n=0, bad=0, nest=False)
-                obj = getattr(nds, api)(f, method=method)
+                obj = getattr(nds, api)(f, method=method, bounds=box) if inner != 'same-object' else getattr(nds, api)(f, method=method)
                 plain = fw.obs(obj(x, 2.5, shift=-1.0))
                 prob = None
                 if bad:
@@ -599,10 +607,12 @@ def reentrant(acc):
                     prob = 'the result differs from the same call without the inner one'
             except Exception as e:      # noqa: BLE001
                 prob = 'raised %s: %s' % (type(e).__name__, e)
-            acc.case(('reentrant', api, method), nontrivial=True, cell='history/reentrant', outcome=prob is None)
+            acc.case(('reentrant', api, method, inner), nontrivial=True, cell='history/reentrant', outcome=prob is None)
             if prob:
-                acc.violation('C19:%s:%s:reentrant-extra-arguments' % (api, method), case,
-                              'nd_scipy.%s(f, method=%r), f calling the same object with other extras: %s' % (api, method, prob), 1)
+                acc.violation('C19:%s:%s:reentrant-extra-arguments%s' % (api, method, '' if inner == 'same-object' else ':' + inner), case,
+                              'nd_scipy.%s(f, method=%r), f calling %s with other extras: %s'
+                              % (api, method, 'the same object' if inner == 'same-object' else
+                                 'another %s object (method=%r, step=1e-2, unbounded)' % (api, other_method), prob), 1)
 
 
 def run(ctx):
